@@ -189,7 +189,9 @@ fn run_sol<T: BE>(case: &Value, out: &mut Out) {
     let sol = guarded(|| m.solve(&r));
     let (panic, msg) = match &sol { Ok(_) => (false, String::new()), Err(s) => (true, s.clone()) };
     if mode != "units" {
-        let pre = jtri(&m, Part::Re);
+        // operand = the matrix the CASE prescribes (kept inside TLC's integers by the generators); the "built" event
+        // checks that the object under test holds exactly these diagonals
+        let pre = re_tri(&case["tri"]);
         // determinant: exact where the arithmetic is (Rat; floats on small integers: every term is an integer below 2^53)
         let rq = match &det { Ok(d) => match to_rat(d) { Some((q, true)) => jrat(q), _ => json!([BAD, 1]) }, Err(_) => json!([BAD, 1]) };
         emit(out, &mut k, json!({"op": "det", "pre": pre, "panic": det.is_err(), "rq": rq}));
